@@ -44,7 +44,7 @@ def _schedule(rf, steps, stats_kinds):
             stats_kinds.update(kinds)
             plan.append(["run", ms, vals])
         if rf.chance(0.3):
-            plan.append([rf.choice(["progress", "is_complete", "observe"])])
+            plan.append([rf.choice(["progress", "is_complete", "observe", "output"])])
     if not any(o[0] == "iterate" or (o[0] == "iterate_n" and o[1] >= 1) or o[0] == "run" for o in plan):
         plan.append(["iterate"])   # a cyclic plan must make progress
     return plan
@@ -115,6 +115,12 @@ def generate(seed, tier, index):
         scripts.append(t)
         twin = len(scripts) - 1
 
+    # an earlier content of the caller's own objects: same description, other numbers (see common.retuned_entry)
+    morph = None
+    if not seedless and not deep and main["script"].get("t_sample") and rh.chance(0.22):
+        scripts.append(C.retuned_entry(main, rh.sub("retune")))
+        morph = len(scripts) - 1
+
     lifetimes = []
     faults = set()
     pyseed0 = rf.bits(30)
@@ -156,6 +162,19 @@ def generate(seed, tier, index):
             mode = rf.wchoice([("drive", 6), ("simulate_script", 3), ("simulate_api", 1 if not seedless else 0)])
             ops = list(head)
             via = rf.choice(["LibRDEngine", "factory"])
+            if morph is not None and sidx == 0 and mode != "simulate_api" and rf.chance(0.7):
+                # the caller's live objects held another content before (and were used with it: set up, run, right-hand
+                # side exported); they are re-assigned property by property to S, then used as S
+                if rf.chance(0.7):
+                    pre = [["poison", 0], ["setup"], ["iterate_n", rf.randint(0, 4)]]
+                    if rf.chance(0.5):
+                        pre += [["output"]]
+                    if rf.chance(0.7):
+                        pre += [["finalize"]]
+                    eps.append({"obj": rf.randint(0, 2), "new": rf.chance(0.5), "kind": kind, "via": via, "script": morph,
+                                "ops": pre})
+                ops += [["morph", morph]]
+                faults.add("live_objects_reassigned_to_S")
             if mode == "drive":
                 kinds = set()
                 plan = _schedule(rf, sp["steps"], kinds)
@@ -206,7 +225,7 @@ def generate(seed, tier, index):
         lifetimes.append(lt)
     case = {"format": 1, "property": ID, "seed": seed, "tier": tier, "index": index, "build": "plain",
             "scripts": scripts, "lifetimes": lifetimes,
-            "meta": {"kind": kind, "twin": twin, "deep_decay": deep, "seedless": seedless, "pyseed0": pyseed0, "faults": sorted(faults)}}
+            "meta": {"kind": kind, "twin": twin, "morph": morph, "deep_decay": deep, "seedless": seedless, "pyseed0": pyseed0, "faults": sorted(faults)}}
     return case
 
 
